@@ -1,7 +1,14 @@
-"""One SMT query of E2: build PEG side and RFC side for a symbolic string of concrete length n and decide
-    exists s in Bytes^n :  PEG_accepts(s) != RFC_derives(s)     [ and / and-not  Known(s) ]
-Runs inside a worker process (z3 terms are not picklable); everything it needs comes in `task`."""
+"""One obligation of E2: build PEG side and RFC side for a symbolic byte string of concrete length n and decide
+
+    exists s in Bytes^n :  PEG_accepts(s) != RFC_derives(s)     [ and-not Known(s)  |  and Known(s) ]
+
+The terms are built through the z3 Python API.  The satisfiability verdict comes from
+  engine 'z3'    z3 (SolverFor QF_BV) through the API, and/or
+  engine 'cvc5'  the cvc5 command line tool (--bitblast=eager) on the SMT-LIB2 export of the same assertion
+                 (models are read back with get-value);
+when both run they have to agree.  Runs inside a worker process (z3 terms are not picklable)."""
 import os
+import re
 import subprocess
 import time
 
@@ -10,9 +17,10 @@ def _bv(z3, x):
     return z3.BoolVal(x) if isinstance(x, bool) else x
 
 
-def _encode(z3, task, alg):
+def build(z3, task):
     from . import abnf, pegenc
     n = task['n']
+    alg = pegenc.Z3Alg(z3, n)
     pe = pegenc.PegEnc(task['rules'], alg, n)
     acc, rz = pe.accepts(task['root'])
     g = abnf.Grammar(task['abnf_text'] + '\n' + task.get('abnf_ext', ''))
@@ -21,45 +29,129 @@ def _encode(z3, task, alg):
     known = None
     if task.get('known_start'):
         known = dv.rule(task['known_start'], 0, n)
-    info = {'peg_memo': len(pe.memo), 'rfc_memo': len(dv.memo) + len(dv.cmemo) + len(dv.rmemo), 'bool_nodes': alg.nodes}
-    return _bv(z3, acc), _bv(z3, rz), _bv(z3, rfc), (None if known is None else _bv(z3, known)), info
+    info = {'peg_table_entries': len(pe.memo), 'rfc_table_entries': len(dv.memo) + len(dv.cmemo) + len(dv.rmemo), 'bool_nodes': alg.nodes}
+    return alg, _bv(z3, acc), _bv(z3, rz), _bv(z3, rfc), (None if known is None else _bv(z3, known)), info
 
 
-def build(z3, task):
-    """Pass 1 (RecAlg, bit-vector bytes) records every byte set either encoding tests.  If no encoding looks at raw
-    byte values, pass 2 re-encodes over one-hot byte CLASSES (the partition induced by those sets); otherwise the
-    bit-vector encoding of pass 1 is used."""
-    from . import pegenc
-    n = task['n']
-    rec = pegenc.RecAlg(z3, n)
-    acc, rz, rfc, known, info = _encode(z3, task, rec)
-    if rec.raw or os.environ.get('PEG2SMT_NOCLASS') or not rec.sets:
-        info['bytes_as'] = 'bit-vectors (8 bit)'
-        return rec, acc, rz, rfc, known, info
-    classes = pegenc.byte_classes(rec.sets)
-    alg = (pegenc.ClassAlg if os.environ.get('PEG2SMT_ONEHOT') else pegenc.ClassBvAlg)(z3, n, classes)
-    acc, rz, rfc, known, info = _encode(z3, task, alg)
-    info['bytes_as'] = 'one-hot over %d byte classes' % len(classes)
-    info['byte_classes'] = len(classes)
-    return alg, acc, rz, rfc, known, info
-
-
-def _pick(seedless_idx):
-    def pick(blk, k):
-        pr = [b for b in blk if 0x21 <= b <= 0x7e]
-        cand = pr or blk
-        return cand[(seedless_idx * 7 + k * 3) % len(cand)] if seedless_idx else cand[0]
-    return pick
-
-
-def _mk_solver(z3, task):
+def _mk_solver(z3, task, timeout_s=None):
     s = z3.SolverFor('QF_BV')
-    s.set('timeout', int(task['timeout_s'] * 1000))
+    s.set('timeout', int((timeout_s or task['timeout_s']) * 1000))
     try:
         s.set('random_seed', int(task.get('seed', 1)))
     except Exception:
         pass
     return s
+
+
+def _count_nodes(z3, term):
+    seen = set()
+    st = [term]
+    while st:
+        t = st.pop()
+        i = t.get_id()
+        if i in seen:
+            continue
+        seen.add(i)
+        st.extend(t.children())
+    return len(seen)
+
+
+def _cvc5(z3, task, alg, goal, tag):
+    """-> (result string, model bytes or None, seconds)"""
+    s = z3.SolverFor('QF_BV')
+    s.add(goal)
+    text = s.to_smt2()
+    declared = set(re.findall(r'\(declare-fun (\S+) \(\)', text))
+    names = [str(b) for b in alg.s]
+    ask = [nm for nm in names if nm in declared]
+    path = os.path.join(task['work'], 'q-%s-%s-%d.smt2' % (task['top'], tag, task['n']))
+    with open(path, 'w') as f:
+        f.write('(set-option :produce-models true)\n(set-logic QF_BV)\n' + text)
+        if ask:
+            f.write('(get-value (%s))\n' % ' '.join(ask))
+    t1 = time.time()
+    lim = int(task['timeout_s'])
+    cmd = ['cvc5', '--bitblast=eager', '--lang=smt2', '--tlimit=%d' % (lim * 1000), path]
+    try:
+        cp = subprocess.run(cmd, capture_output=True, text=True, timeout=lim + 30)
+        txt = (cp.stdout + '\n' + cp.stderr).strip()
+    except subprocess.TimeoutExpired:
+        txt = 'timeout'
+    dt = round(time.time() - t1, 3)
+    try:
+        os.unlink(path)
+    except OSError:
+        pass
+    first = txt.split('\n')[0].strip() if txt else ''
+    if first == 'unsat':
+        # (get-value after unsat prints an error; that is expected and ignored)
+        return 'unsat', None, dt
+    if first == 'sat':
+        if '(error' in txt:
+            return 'error: ' + txt[:200].replace('\n', ' '), None, dt
+        vals = dict((k, int(v, 2)) for k, v in re.findall(r'\(([^\s()]+) #b([01]+)\)', txt))
+        vals.update(dict((k, int(v, 16)) for k, v in re.findall(r'\(([^\s()]+) #x([0-9a-fA-F]+)\)', txt)))
+        return 'sat', [vals.get(nm, 0x41) for nm in names], dt
+    if 'timeout' in txt or 'interrupted' in txt.lower():
+        return 'timeout', None, dt
+    return 'error: ' + txt[:200].replace('\n', ' '), None, dt
+
+
+def _eval_on(z3, alg, data, terms):
+    """values of Bool terms under the concrete byte string `data` (by substitution + simplification)"""
+    sub = [(b, z3.BitVecVal(v, 8)) for b, v in zip(alg.s, data)]
+    out = []
+    for t in terms:
+        v = z3.simplify(z3.substitute(t, *sub)) if sub else z3.simplify(t)
+        if z3.is_true(v):
+            out.append(True)
+        elif z3.is_false(v):
+            out.append(False)
+        else:
+            raise RuntimeError('term does not evaluate to a constant under a full assignment')
+    return out
+
+
+def decide(z3, task, alg, goal, tag, terms):
+    """Decide one assertion with the engines requested in task['engines'].
+    -> dict(status, witness?, witness_vals?, engines={name: {result, s}})"""
+    engines = {}
+    results = []
+    witness = None
+    if 'z3' in task['engines']:
+        s = _mk_solver(z3, task)
+        s.add(goal)
+        t1 = time.time()
+        r = s.check()
+        res = str(r)
+        if r == z3.unknown:
+            res = 'unknown (%s)' % s.reason_unknown()
+        engines['z3'] = {'result': res, 's': round(time.time() - t1, 3)}
+        results.append(res)
+        if r == z3.sat:
+            m = s.model()
+            witness = [m.eval(b, model_completion=True).as_long() for b in alg.s]
+    if 'cvc5' in task['engines']:
+        res, model, dt = _cvc5(z3, task, alg, goal, tag)
+        engines['cvc5'] = {'result': res, 's': dt}
+        results.append(res)
+        if res == 'sat' and witness is None:
+            witness = model
+    out = {'engines': engines}
+    if all(r == 'unsat' for r in results):
+        out['status'] = 'unsat'
+    elif all(r == 'sat' for r in results):
+        out['status'] = 'sat'
+        acc, rz, rfc = _eval_on(z3, alg, witness, terms)
+        out['witness'] = witness
+        out['witness_vals'] = {'peg_accept': acc, 'peg_raise': rz, 'rfc': rfc}
+    elif set(results) == {'sat', 'unsat'}:
+        out['status'] = 'disagree'
+        out['reason'] = 'solvers disagree: %r' % engines
+    else:
+        out['status'] = 'unknown'
+        out['reason'] = '%r' % engines
+    return out
 
 
 def solve(task):
@@ -84,61 +176,25 @@ def solve(task):
         goal = z3.And(diff, known)
     else:
         raise ValueError(mode)
-    s = _mk_solver(z3, task)
-    side = alg.side_constraints()
-    s.add(*side) if side else None
-    s.add(goal)
-    out['assertions'] = len(s.assertions())
-    t1 = time.time()
-    r = s.check()
-    out['solver_s'] = round(time.time() - t1, 3)
-    out['status'] = str(r)
-    queries.append({'q': mode, 'result': str(r), 's': out['solver_s']})
-    if task.get('cvc5') and str(r) in ('sat', 'unsat'):
-        # second opinion: the same assertion exported as SMT-LIB2, decided by the cvc5 command line tool
-        path = os.path.join(task['work'], 'q-%s-%s-%d.smt2' % (task['top'], mode, task['n']))
-        with open(path, 'w') as f:
-            f.write('(set-logic QF_BV)\n' + s.to_smt2())
-        t1 = time.time()
-        lim = int(max(120, 20 * out['solver_s']))
-        try:
-            cp = subprocess.run(['cvc5', '--bitblast=eager', '--lang=smt2', path], capture_output=True, text=True, timeout=lim)
-            txt = (cp.stdout + cp.stderr).strip()
-            res = 'error: ' + txt[:200] if ('(error' in txt or cp.returncode != 0) else txt.split('\n')[0].strip()
-        except subprocess.TimeoutExpired:
-            res = 'timeout after %ds' % lim
-        out['cvc5'] = {'result': res, 's': round(time.time() - t1, 3), 'cmd': 'cvc5 --bitblast=eager --lang=smt2 <exported query>'}
-        queries.append({'q': mode + ' (cvc5)', 'result': res, 's': out['cvc5']['s']})
-        try:
-            os.unlink(path)
-        except OSError:
-            pass
-    if r == z3.sat:
-        m = s.model()
-        out['witness'] = alg.model_bytes(m, _pick(0))
-        out['witness_vals'] = {'peg_accept': z3.is_true(m.eval(acc, model_completion=True)),
-                               'peg_raise': z3.is_true(m.eval(rz, model_completion=True)),
-                               'rfc': z3.is_true(m.eval(rfc, model_completion=True))}
-    elif r == z3.unknown:
-        out['reason'] = s.reason_unknown()
+    out['formula_dag_nodes'] = _count_nodes(z3, goal)
+    out['assertions'] = 1
+    d = decide(z3, task, alg, goal, mode, (acc, rz, rfc))
+    out.update(d)
+    for e, v in d['engines'].items():
+        queries.append({'q': mode, 'engine': e, 'result': v['result'], 's': v['s']})
+    out['solver_s'] = round(sum(v['s'] for v in d['engines'].values()), 3)
     # exclusion soundness: every string of the known language is a disagreement of the known shape
-    if mode == 'confirm' and r == z3.sat:
-        s2 = _mk_solver(z3, task)
-        s2.add(*side) if side else None
-        s2.add(z3.And(known, z3.Not(z3.And(z3.Not(acc), rfc))))
-        t1 = time.time()
-        r2 = s2.check()
-        queries.append({'q': 'known-set subset of {PEG rejects, RFC derives}', 'result': str(r2), 's': round(time.time() - t1, 3)})
-        out['known_subset_of_defect'] = (r2 == z3.unsat)
+    if mode == 'confirm' and d['status'] == 'sat':
+        d2 = decide(z3, dict(task, engines=['z3']), alg, z3.And(known, z3.Not(z3.And(z3.Not(acc), rfc))), 'subset', (acc, rz, rfc))
+        queries.append({'q': 'known language is a subset of {PEG rejects, RFC derives}', 'engine': 'z3', 'result': d2['status'], 's': d2['engines']['z3']['s']})
+        out['known_subset_of_defect'] = (d2['status'] == 'unsat')
     # solver-chosen boundary strings (validation of the encoder against the real parser / recogniser)
     samples = []
     k = task.get('k_samples', 0)
-    if k and task['n'] > 0:
+    if k and task['n'] > 0 and d['status'] in ('sat', 'unsat'):
         for label, cond in (('peg_accept', acc), ('peg_reject', z3.And(z3.Not(acc), z3.Not(rz))), ('peg_raise', rz),
                             ('rfc_derives', rfc), ('rfc_not', z3.Not(rfc))):
-            s3 = _mk_solver(z3, task)
-            s3.set('timeout', 20000)
-            s3.add(*side) if side else None
+            s3 = _mk_solver(z3, task, 20)
             s3.add(cond)
             got = 0
             t1 = time.time()
@@ -147,16 +203,14 @@ def solve(task):
                 if r3 != z3.sat:
                     break
                 m = s3.model()
-                bs = alg.model_bytes(m, _pick(got + 1))
+                bs = [m.eval(b, model_completion=True).as_long() for b in alg.s]
                 samples.append({'class': label, 'bytes': bs,
                                 'peg_accept': z3.is_true(m.eval(acc, model_completion=True)),
                                 'peg_raise': z3.is_true(m.eval(rz, model_completion=True)),
                                 'rfc': z3.is_true(m.eval(rfc, model_completion=True))})
                 got += 1
-                if not alg.s:
-                    break
-                s3.add(alg.block(m))
-            queries.append({'q': 'sample ' + label, 'result': '%d models' % got, 's': round(time.time() - t1, 3)})
+                s3.add(z3.Or(*[b != v for b, v in zip(alg.s, bs)]))
+            queries.append({'q': 'sample ' + label, 'engine': 'z3', 'result': '%d models' % got, 's': round(time.time() - t1, 3)})
             out.setdefault('class_sat', {})[label] = got > 0
     out['samples'] = samples
     out['queries'] = queries
